@@ -48,6 +48,12 @@ def rleLoop (q : Nat) : List TCoef → RleState → Option RleState
     let isVert := if val != 0 && zx > 0 then false else s.isVert
     rleLoop q ts { data := data, isHoriz := isHoriz, isVert := isVert, zz := zz + 1 }
 
+/-- the state the coefficient loop starts from: all zeros, or the INTRADC level at position 0 and the scan at position 1 -/
+def initState (b : Block) : RleState :=
+  match b.intradc with
+  | some dc => { data := (List.replicate 64 (0 : Int)).set 0 (intraDcLevel dc), isHoriz := true, isVert := true, zz := 1 }
+  | none => { data := List.replicate 64 0, isHoriz := true, isVert := true, zz := 0 }
+
 /-- The new content of `levels[block_id]` (`none`: the early return, the entry keeps its old value). -/
 def inverseRleBlock (b : Block) (q : Nat) : Option Dct :=
   if b.tcoef.isEmpty then
@@ -55,11 +61,7 @@ def inverseRleBlock (b : Block) (q : Nat) : Option Dct :=
     | some dc => if intraDcLevel dc = 0 then some .zero else some (.dc (intraDcLevel dc))
     | none => some .zero
   else
-    let init : RleState :=
-      match b.intradc with
-      | some dc => { data := (List.replicate 64 (0 : Int)).set 0 (intraDcLevel dc), isHoriz := true, isVert := true, zz := 1 }
-      | none => { data := List.replicate 64 0, isHoriz := true, isVert := true, zz := 0 }
-    match rleLoop q b.tcoef init with
+    match rleLoop q b.tcoef (initState b) with
     | none => none
     | some s =>
       match s.isHoriz, s.isVert with
